@@ -446,3 +446,129 @@ def oracle_overlap(case, obs):
 
 FAMILIES.append(Family("overlapping_continuations", gen_overlap, impl_overlap, None, None, oracle_overlap,
                        lambda case, obs: json.dumps(case), shard=20, case_timeout=90))
+
+
+# ---- asyncio tasks / threads that each do `with shared.context():` on ONE shared action, in every order of entering/leaving ----
+def gen_shared_tasks(rng, tier):
+    import itertools
+    out = []
+    # all interleavings of enter/exit for two tasks, then seed-chosen ones for three
+    for order in sorted(set(itertools.permutations([0, 0, 1, 1]))):
+        for mode in ("asyncio", "threads"):
+            out.append({"n": 2, "order": list(order), "mode": mode})
+    for _ in range(20 if tier == "quick" else 300):
+        order = [0, 0, 1, 1, 2, 2]
+        rng.shuffle(order)
+        out.append({"n": 3, "order": order, "mode": rng.choice(["asyncio", "threads"])})
+    return out
+
+
+def impl_shared_tasks(case):
+    import asyncio, threading
+    from eliot import _output, start_action, current_action, log_message
+    d = _output.Destinations()
+    _output.Logger._destinations = d
+    got = []
+    d.add(lambda m: got.append(dict(m)))
+    names = {}
+
+    def name():
+        a = current_action()
+        return None if a is None else names.get(id(a), "?")
+    shared = start_action(action_type="shared")
+    names[id(shared)] = "shared"
+    log, errors = [], []
+    order = list(case["order"])
+    n = case["n"]
+    if case["mode"] == "asyncio":
+        async def main():
+            turn = [asyncio.Event() for _ in order]
+            done = [asyncio.Event() for _ in order]
+            steps = {i: [k for k, g in enumerate(order) if g == i] for i in range(n)}
+
+            async def task(i):
+                try:
+                    with start_action(action_type="own%d" % i) as a:
+                        names[id(a)] = "own%d" % i
+                        await turn[steps[i][0]].wait()
+                        with shared.context():
+                            log.append([i, "inside", name()])
+                            log_message("in", i=i)
+                            done[steps[i][0]].set()
+                            await turn[steps[i][1]].wait()
+                            log.append([i, "still-inside", name()])
+                        log.append([i, "left", name()])
+                        log_message("after", i=i)
+                        done[steps[i][1]].set()
+                except BaseException as e:
+                    errors.append("task %d: %s: %s" % (i, type(e).__name__, e))
+                    for ev in done:
+                        ev.set()
+            ts = [asyncio.ensure_future(task(i)) for i in range(n)]
+            for k in range(len(order)):
+                turn[k].set()
+                await asyncio.wait_for(done[k].wait(), 10)
+            for t in ts:
+                await t
+        try:
+            asyncio.run(asyncio.wait_for(main(), 30))
+        except BaseException as e:
+            errors.append("run: %s: %s" % (type(e).__name__, e))
+    else:
+        turn = [threading.Event() for _ in order]
+        done = [threading.Event() for _ in order]
+        steps = {i: [k for k, g in enumerate(order) if g == i] for i in range(n)}
+
+        def task(i):
+            try:
+                with start_action(action_type="own%d" % i) as a:
+                    names[id(a)] = "own%d" % i
+                    turn[steps[i][0]].wait(10)
+                    with shared.context():
+                        log.append([i, "inside", name()])
+                        log_message("in", i=i)
+                        done[steps[i][0]].set()
+                        turn[steps[i][1]].wait(10)
+                        log.append([i, "still-inside", name()])
+                    log.append([i, "left", name()])
+                    log_message("after", i=i)
+                    done[steps[i][1]].set()
+            except BaseException as e:
+                errors.append("task %d: %s: %s" % (i, type(e).__name__, e))
+                for ev in done:
+                    ev.set()
+        ts = [threading.Thread(target=task, args=(i,)) for i in range(n)]
+        for t in ts:
+            t.start()
+        for k in range(len(order)):
+            turn[k].set()
+            done[k].wait(10)
+        for t in ts:
+            t.join(10)
+    shared.finish()
+    parent = {}
+    for m in got:
+        if m.get("action_status") == "started":
+            parent[(m["task_uuid"], tuple(m["task_level"][:-1]))] = m["action_type"]
+    where = [[m.get("message_type"), m.get("i"), parent.get((m["task_uuid"], tuple(m["task_level"][:-1])))] for m in got if m.get("message_type") in ("in", "after")]
+    return {"log": log, "errors": errors, "where": where}
+
+
+def oracle_shared_tasks(case, obs):
+    if obs["errors"]:
+        return obs["errors"][0]
+    for i, what, cur in obs["log"]:
+        want = "shared" if what in ("inside", "still-inside") else "own%d" % i
+        if cur != want:
+            return "task %d %s `with shared.context()`: current action is %r, expected %r" % (i, what, cur, want)
+    if len(obs["log"]) != 3 * case["n"]:
+        return "only %d of %d checkpoints reached" % (len(obs["log"]), 3 * case["n"])
+    for mt, i, par in obs["where"]:
+        want = "shared" if mt == "in" else "own%d" % i
+        if par != want:
+            return "message %r of task %d was attributed to action %r, expected %r" % (mt, i, par, want)
+    return None
+
+
+FAMILIES.append(Family("shared_context_tasks", gen_shared_tasks, impl_shared_tasks, None, None, oracle_shared_tasks,
+                       lambda case, obs: json.dumps(case), shard=20, case_timeout=90))
